@@ -302,6 +302,14 @@ def run_units(mod, units, seed, tier, budget_s, only=None) -> Ctx:
         ctx.units_done += 1
     if hasattr(mod, 'teardown'):
         mod.teardown(ctx)
+    try:
+        from . import gen as _gen
+
+        for k_, v_ in _gen.PRESENTATION.items():
+            ctx.count(k_, v_)
+        _gen.PRESENTATION.clear()
+    except Exception:  # noqa: BLE001
+        pass
     cov.stop()
     return ctx
 
